@@ -177,9 +177,10 @@ func (f *FibStrategyTree) InsertNextHopEnc(name enc.Name, nexthop uint64, cost u
 	if entry.name == nil {
 		entry.name = name
 	}
-	for _, existingNexthop := range entry.nexthops {
+	for i, existingNexthop := range entry.nexthops {
 		if existingNexthop.Nexthop == nexthop {
-			existingNexthop.Cost = cost
+			// Replace rather than modify: lookups hand out the old record
+			entry.nexthops[i] = &FibNextHopEntry{Nexthop: nexthop, Cost: cost}
 			return
 		}
 	}
@@ -247,9 +248,9 @@ func (f *FibStrategyTree) GetAllFIBEntries() []FibStrategyEntry {
 			queue.PushFront(child)
 		}
 
-		// If has any nexthop entries, add to list
+		// If has any nexthop entries, add (a snapshot) to list
 		if len(fsEntry.nexthops) > 0 {
-			entries = append(entries, fsEntry)
+			entries = append(entries, fsEntry.snapshot())
 		}
 	}
 	return entries
@@ -298,9 +299,9 @@ func (f *FibStrategyTree) GetAllForwardingStrategies() []FibStrategyEntry {
 			queue.PushFront(child)
 		}
 
-		// If has any nexthop entries, add to list
+		// If has a strategy, add (a snapshot) to list
 		if fsEntry.strategy != nil {
-			entries = append(entries, fsEntry)
+			entries = append(entries, fsEntry.snapshot())
 		}
 	}
 	return entries
